@@ -4,7 +4,7 @@ CONFIG = dict(
     pkg="c14", level="exploration",
     technique=("exhaustive enumeration of all push orders of small DAGs + rapid property test over push histories, "
                "checked against a history invariant and an independent reference model of the buffer"),
-    level_text=("Every DAG shape over 3-4 labelled events (5: reduced configuration list; thorough: 5 fully, 6 reduced) and "
+    level_text=("Every DAG shape over 3-4 labelled events (quick: 5 with exact limits and no failure; thorough: 5 fully, 6 with a reduced configuration list) and "
                 "rapid-drawn DAGs with up to 6 (thorough 7) pushes are run under ALL arrival orders; larger histories "
                 "(3-12 events, duplicates, omitted events, missing parents, interleaved Clear, outside connections, limit "
                 "classes {0,1,exact-1,exact,ample}, failing Check/Process) are sampled with rapid-drawn orders."),
@@ -28,7 +28,7 @@ CONFIG = dict(
     units=[
         dict(test="TestC14Regression", kind="plain"),
         dict(test="TestC14Enum", kind="plain", shards=16),
-        dict(test="TestC14Perms", quick=150, thorough=4800, shards=16),
-        dict(test="TestC14Random", quick=20000, thorough=3200000, shards=16),
+        dict(test="TestC14Perms", quick=150, thorough=3200, shards=16),
+        dict(test="TestC14Random", quick=20000, thorough=1600000, shards=16),
     ],
 )
